@@ -154,3 +154,109 @@ def salt_field(prefix, passphrase):
         raise AssertionError("salt collision")
     PASS.setdefault(f, passphrase)
     return f
+
+
+# ---- first use from several threads at once, in a fresh interpreter -------------------------------------------------------------
+# The codecs are pure functions of (language, phrase); the word lists behind them are process-wide objects that are loaded (and, in
+# some designs, indexed) the first time they are needed.  Whatever is built lazily on first use is built while other threads may be
+# asking for it, and in this process every list has long been used by the time a relation runs — so the first use is replayed in a
+# fresh interpreter: per round, optional calls in the main thread (e.g. an encoder, which loads a list without searching it), then N
+# threads released together, each with its own public object (constructed before or after the release) and making one call, arriving
+# spread over a short time (a half-built structure is only seen by a thread that arrives while another is building).  Only public
+# classes, addressed by name.
+_FIRST_USE_CHILD = r'''
+import json, sys, threading
+import bip_utils
+rounds = json.loads(sys.stdin.read())
+sys.setswitchinterval(1e-6)
+
+def arg(a):
+    if a is None: return None
+    k, v = a
+    if k == "enum": return getattr(bip_utils, v[0])[v[1]]
+    if k == "hex": return bytes.fromhex(v)
+    return v
+
+def canon(r):
+    if isinstance(r, (bytes, bytearray)): return bytes(r).hex()
+    if hasattr(r, "ToStr"): return r.ToStr()
+    return str(r)
+
+def make(t):
+    return getattr(bip_utils, t["cls"])(*[arg(a) for a in t["ctor"]])
+
+def call(t, obj=None):
+    obj = make(t) if obj is None else obj
+    return canon(getattr(obj, t["meth"])(arg(t["arg"]))) if t.get("meth") else ""
+
+out = []
+for rnd in rounds:
+    tasks = rnd["tasks"]
+    bar = threading.Barrier(len(tasks) + 1)
+    go = [False]
+    stagger = rnd.get("stagger", 0)
+    res = [None] * len(tasks)
+    for t in rnd.get("before", []):
+        try:
+            call(t)
+        except Exception as ex:      # reported after the task results
+            res.append(["!" + type(ex).__name__, "in the main thread, before the threads started: " + str(ex)[:120]])
+    def work(i, t):
+        # every other thread has its object ready when the round starts (its first call is then the first search of the list); the
+        # others construct it afterwards as well (their first call is then also the first load of the list)
+        obj = err = None
+        if i % 2:
+            try:
+                obj = make(t)
+            except Exception as ex:
+                err = ex
+        try:
+            bar.wait()
+        except threading.BrokenBarrierError:
+            pass
+        while not go[0]:          # spin: every thread is runnable (not asleep in a lock) at the moment the round starts
+            pass
+        for _ in range(i * stagger):      # … and they arrive spread over the time a lazy initialisation would take, not all at its very beginning
+            pass
+        try:
+            if err is not None:
+                raise err
+            res[i] = [call(t, obj), ""]
+        except Exception as ex:
+            res[i] = ["!" + type(ex).__name__, str(ex)[:120]]
+    ths = [threading.Thread(target=work, args=(i, t)) for i, t in enumerate(tasks)]
+    for th in ths: th.start()
+    try:
+        bar.wait(60)
+    except threading.BrokenBarrierError:
+        pass
+    go[0] = True
+    for th in ths: th.join()
+    out.append(res)
+print("\n" + json.dumps(out))
+'''
+
+
+def first_use_concurrently(rounds, timeout=120):
+    """run `rounds` ([{"before": [task…], "tasks": [task…]}], task = {"cls", "ctor": [arg…], "meth", "arg"}, arg = None | ["enum", [enum class
+    name, member name]] | ["hex", h] | ["str", s]) in ONE fresh interpreter: per round the `before` calls in the main thread, then all
+    `tasks` from as many threads released together.  Returns per round the list of [canonical result | "!ExceptionClass", detail]."""
+    import json, os, subprocess, sys
+    from harness.core import VERIF, HarnessError
+    p = subprocess.run([sys.executable, "-c", _FIRST_USE_CHILD], input=json.dumps(rounds), stdout=subprocess.PIPE, stderr=subprocess.PIPE, text=True,
+                       timeout=timeout, env=dict(os.environ, PYTHONPATH=VERIF + ":" + os.environ.get("VERIF_REPO", "/repo"), PYTHONDONTWRITEBYTECODE="1"))
+    if p.returncode != 0:
+        raise HarnessError("first-use child interpreter failed: " + p.stderr[-600:])
+    return [[r if r else ["!no-result", ""] for r in res] for res in json.loads(p.stdout.strip().split("\n")[-1])]
+
+
+def task(cls, ctor, meth=None, a=None):
+    def enc(x):
+        if x is None:
+            return None
+        if isinstance(x, (bytes, bytearray)):
+            return ["hex", bytes(x).hex()]
+        if isinstance(x, str):
+            return ["str", x]
+        return ["enum", [type(x).__name__, x.name]]
+    return {"cls": cls, "ctor": [enc(x) for x in ctor], "meth": meth, "arg": enc(a)}
